@@ -722,6 +722,8 @@ def round14_entries():
            'define void @f(i32 %x) {\n\tcall void @llvm.dbg.value(metadata !DIArgList(i32 %x), metadata !0, metadata !DIExpression())\n\tret void\n}\n\n'
            'define void @g(i32 %x) {\n\tcall void @llvm.dbg.value(metadata !DIArgList(i32 %x), metadata !0, metadata !DIExpression())\n\tcall void @llvm.dbg.value(metadata !DIArgList(i32 %x), metadata !0, metadata !DIExpression())\n\tret void\n}\n\n!0 = !{}\n')
     out.append(("diarglist.same-text-two-functions", dal, ["metadata !DIArgList(i32 %x)"]))
+    # the EMPTY comdat name (`$""`, accepted by LLVM too): printed quoted — `$` alone is not a token
+    out.append(("comdat.empty-name", '$"" = comdat any\n\n@x = global i32 0, comdat($"")\n', ['$"" = comdat any', '@x = global i32 0, comdat($"")']))
     # numbered type definitions among names that sort below the digits, between them and above them
     tys = ['%0', '%1', '%2', '%10', '%.a', '%$s', '%-m', '%"1a"', '%z9', '%z10', '%"!x"', '%"2 b"']
     out.append(("typedefs.numbered-among-names", "".join("%s = type { [%d x i8] }\n" % (t, i + 1) for i, t in enumerate(tys)) + "\n" + "".join("@g%d = global %s zeroinitializer\n" % (i, t) for i, t in enumerate(tys)),
